@@ -135,6 +135,15 @@ def do_check(pid, tier, keep=False, only=None):
                     r2['fallback_from'] = ' -> '.join(tried[:-1]) + ' (back end aborted)'
                     r2['final_solver'] = cur
                     r = r2
+                # A failure reported through an SMT flavour is only believed when the SAT back end
+                # confirms it: CBMC's SMT2 output over-approximates some operations (observed: a
+                # spurious chrono::expect panic through checked_mul under the cvc5 flavour).
+                if cur in ('cvc5', 'cvc5-fpa') and not r['killed'] and 'VERIFICATION:- FAILED' in r['out'] and 'CBMC failed with status' not in r['out']:
+                    r2 = kr.run_harness(u, hn, solver_override='cadical', timeout=u.harness[hn].get('fallback_timeout', 400))
+                    r2['wall_s'] += r['wall_s']
+                    r2['fallback_from'] = cur + ' reported a failure; re-decided by the SAT back end'
+                    r2['final_solver'] = 'cadical'
+                    r = r2
                 return (kr, u, hn), r
 
             with ThreadPoolExecutor(max_workers=workers) as ex:
